@@ -82,32 +82,47 @@ func (t *tokens) binOp() expr.BinaryOp {
 	return op
 }
 
+// expr parses one expression and records it as an input of the line.
 func (t *tokens) expr() expr.Expr {
+	ex := t.exprRec()
+	t.inputs = append(t.inputs, parsedInput{ex: ex, text: fmtExpr(ex)})
+	return ex
+}
+
+func (t *tokens) exprRec() expr.Expr {
 	tok := t.next()
 	switch {
 	case strings.HasPrefix(tok, "c:"):
+		if c, ok := t.consts[tok]; ok {
+			return c
+		}
 		bs, err := hex.DecodeString(tok[2:])
 		if err != nil || len(bs) > 255 {
 			panic(parseError("bad const"))
 		}
-		return expr.NewConst(bs, expr.Width(len(bs)))
+		c := expr.NewConst(bs, expr.Width(len(bs)))
+		if t.consts == nil {
+			t.consts = make(map[string]expr.Const)
+		}
+		t.consts[tok] = c
+		return c
 	case tok == "b":
 		op := t.binOp()
 		w := t.width()
-		a := t.expr()
-		b := t.expr()
+		a := t.exprRec()
+		b := t.exprRec()
 		return expr.NewBinary(op, a, b, w)
 	case tok == "l":
 		w := t.width()
-		a := t.expr()
-		b := t.expr()
-		tr := t.expr()
-		f := t.expr()
+		a := t.exprRec()
+		b := t.exprRec()
+		tr := t.exprRec()
+		f := t.exprRec()
 		return expr.NewLess(a, b, tr, f, w)
 	case tok == "m":
 		k := t.key()
 		w := t.width()
-		a := t.expr()
+		a := t.exprRec()
 		return expr.NewMemLoad(k, a, w)
 	case tok == "r":
 		k := t.key()
